@@ -132,7 +132,7 @@ cpdef list collect_intervals_fast(
     """
     cdef list intervals = []
     cdef int duration = 0
-    cdef int start = 0
+    cdef int start = -1  # -1: no run open (0 is a valid slot index)
     cdef int idx = start_idx
     cdef int current_idx
     cdef object val
@@ -150,7 +150,7 @@ cpdef list collect_intervals_fast(
         pred_result = predicate(val) if idx < end_idx else False
 
         if pred_result:
-            if start == 0:
+            if start < 0:
                 start = idx
             duration += 1
         else:
@@ -162,13 +162,15 @@ cpdef list collect_intervals_fast(
                     if current_idx > e_idx:
                         current_idx = e_idx
 
-                    # Create interval
-                    start_dt = start_date + timedelta(seconds=start * resolution)
-                    end_dt = start_date + timedelta(seconds=current_idx * resolution)
-                    intervals.append(interval_class(start_dt, end_dt))
+                    # Create interval (runs that do not reach into the query window
+                    # are not part of the answer)
+                    if start < current_idx:
+                        start_dt = start_date + timedelta(seconds=start * resolution)
+                        end_dt = start_date + timedelta(seconds=current_idx * resolution)
+                        intervals.append(interval_class(start_dt, end_dt))
 
                 duration = 0
-                start = 0
+                start = -1
 
         idx += 1
 
